@@ -288,6 +288,20 @@ class HDef(Base):
     def run(self):
         words, ci = self.window(self.W, 0)
         c = self.M.FullCaseCitation(self.tok, ci, exact_editions=(us_edition(),))
+        if self.eng.choose([z3.Bool("post_year_already_set"), z3.Not(z3.Bool("post_year_already_set"))]) == 0:
+            # pre-state as add_post_citation leaves it (it runs first): a textual year after the token and the
+            # numeric year that is its value, in range - the invariant the year clause asks for
+            a0 = self.eng.fresh_int("postyear_lo")
+            self.eng.add(self.te <= a0, a0 + 4 <= self.n)
+            ty = TStr.sub(a0, a0 + 4, self.n)
+            v0 = self.eng.fresh_int("intval")
+            self.eng.add(v0 >= 1600, v0 <= self.hi)
+            self.eng.path_state.setdefault("intval", {})[ty.key()] = v0
+            c.metadata.year = ty
+            c.year = SInt(v0)
+            fe0 = self.eng.fresh_int("post_full_end")
+            self.eng.add(a0 + 4 <= fe0, fe0 <= self.n)
+            c.full_span_end = SInt(fe0)
         self.run_with_clock(lambda: self.interp.call(self.Hh.add_defendant, (c, words), {}))
         return c
 
